@@ -543,6 +543,12 @@ class FileGen:
         elif k < 0.70:
             self.need_even(out)
             out.append(Stmt(self.rad50_stmt(), "rad50"))
+        elif k < 0.72 and len(self.f.labels) >= 2 and self.addr_dep_ok(1) and not self.in_repeat:
+            # a size that is a difference of two labels defined above (the unknown base cancels out)
+            i = rng.randrange(0, len(self.f.labels) - 1)
+            j = rng.randrange(i + 1, len(self.f.labels))
+            out.append(Stmt(".blkb %s - %s" % (self.f.labels[j], self.f.labels[i]), "blkb-labdiff"))
+            self.even = None
         elif k < 0.78:
             e = self.expr("small", allow_positional=False)
             out.append(Stmt(".blkb " + e.text, "blkb", {"deps": e.deps}))
